@@ -290,7 +290,9 @@ impl Runner {
     fn op_new(&mut self, a: &BTreeMap<String, String>) -> String {
         let p: usize = a["p"].parse().unwrap();
         let caches = Self::configs(a.get("caches").map_or("-", |s| s.as_str()));
-        let path = self.dir.join(NAME);
+        // `name=`: what the user calls the series; a name with a dot ("s.v2") is stored under its stem
+        let user_name = a.get("name").map_or(NAME, |s| s.as_str());
+        let path = self.dir.join(user_name);
         let b = ByteSeries::builder()
             .payload_size(p)
             .create_new(true)
@@ -312,10 +314,11 @@ impl Runner {
     fn op_open(&mut self, a: &BTreeMap<String, String>) -> String {
         let caches_spec = a.get("caches").map_or("-", |s| s.as_str()).to_string();
         let ext = a.get("ext").map_or("0", |s| s.as_str()) == "1";
+        let user_name = a.get("name").map_or(NAME, |s| s.as_str());
         let path = if ext {
-            self.dir.join(format!("{NAME}.byteseries"))
+            self.dir.join(format!("{user_name}.byteseries"))
         } else {
-            self.dir.join(NAME)
+            self.dir.join(user_name)
         };
         let cb = a.get("cb").map_or("none", |s| s.as_str()).to_string();
         let hdr = a.get("hdr").map_or("any", |s| s.as_str()).to_string();
